@@ -924,6 +924,19 @@ async fn open_redb(image: Pages) -> Result<(Either, ImageBackend), String> {
     Ok((EitherStore::Right(store), backend))
 }
 
+// bench helpers (scratch)
+pub async fn bench_open(p: Pages) -> (Either, ImageBackend) {
+    open_redb(p).await.unwrap()
+}
+pub fn bench_drop_unwind(s: Either) {
+    drop_during_unwind(s)
+}
+impl ImageBackend {
+    pub fn snapshot(&self) -> Pages {
+        self.0.lock().unwrap().clone()
+    }
+}
+
 impl Live {
     pub async fn fresh() -> Result<Live, String> {
         let (redb, backend) = open_redb(Pages::default()).await?;
